@@ -1662,6 +1662,7 @@ func (c *control) dirIter(colon, at bool, params []any) {
 	}
 	n := math.MaxInt
 	n = c.getIntParam(0, params, n, true)
+	unlimited := n == math.MaxInt
 	switch {
 	case colon && at:
 		// The iteration consumes format arguments that must be lists.
@@ -1710,11 +1711,17 @@ func (c *control) dirIter(colon, at bool, params []any) {
 			if (len(c2.args) <= c2.argPos && !atLeastOnce) || c2.stop {
 				break
 			}
+			before := c2.argPos
 			c2.pos = start
 			c2.process()
 			c.out = append(c.out, c2.out...)
 			c2.out = c2.out[:0]
 			atLeastOnce = false
+			if c2.argPos == before && unlimited {
+				// The body did not consume an argument so it never will and
+				// there is no limit on the number of iterations.
+				break
+			}
 		}
 		c.argPos = c2.argPos
 	default:
@@ -1730,11 +1737,17 @@ func (c *control) dirIter(colon, at bool, params []any) {
 			if (len(c2.args) <= c2.argPos && !atLeastOnce) || c2.stop {
 				break
 			}
+			before := c2.argPos
 			c2.pos = start
 			c2.process()
 			c.out = append(c.out, c2.out...)
 			c2.out = c2.out[:0]
 			atLeastOnce = false
+			if c2.argPos == before && unlimited {
+				// The body did not consume an argument so it never will and
+				// there is no limit on the number of iterations.
+				break
+			}
 		}
 	}
 }
